@@ -829,6 +829,30 @@ def _render(v, depth=0):
 render = _render
 
 
+def deep(st, v, depth=0):
+    """v with every heap pointer replaced by the value it points to (for reporting results that hold boxes / vectors)"""
+    if depth > 16 or not isinstance(v, tuple) or not v:
+        return v
+    k = v[0]
+    if k == "ptr":
+        return deep(st, st.heap.get(v[1], U("heap")), depth + 1)
+    if k == "adt":
+        if v[3] is None:
+            return v
+        if v[1].endswith("::Box") and len(v[3]) == 1:
+            return deep(st, v[3][0], depth + 1)
+        return (k, v[1], v[2], tuple(deep(st, x, depth + 1) for x in v[3])) + tuple(v[4:])
+    if k in ("tup", "seq", "set"):
+        return (k, tuple(deep(st, x, depth + 1) for x in v[1])) + tuple(v[2:])
+    if k == "call":
+        return (k, v[1], tuple(deep(st, x, depth + 1) for x in v[2])) + tuple(v[3:])
+    if k == "un":
+        return (k, v[1], deep(st, v[2], depth + 1)) + tuple(v[3:])
+    if k == "bin":
+        return (k, v[1], deep(st, v[2], depth + 1), deep(st, v[3], depth + 1)) + tuple(v[4:])
+    return v
+
+
 # ------------------------------------------------------------------------------------ std summaries
 # each handler(interp, st, path, callee, args, term, depth) -> list[(state, value)] or None (= not applicable)
 
